@@ -311,7 +311,7 @@ def _splice_one(c, rel, fns, src, msk, add, registry):
         # attributes
         line_start = src.rfind('\n', 0, kw) + 1
         attrs = list(c.attrs)
-        if c.rlimit:
+        if c.rlimit and not VACUITY:   # the vacuity run only needs 'false is not derivable cheaply'
             attrs.append('#[verifier::rlimit(%d)]' % c.rlimit)
         if c.assumed:
             attrs.append('#[verifier::external_body]')
